@@ -248,6 +248,13 @@ func c17Child(args []string) int {
 		}
 		rec("", 0)
 		names = append(names, "../outside", "../outside.gr", "sub/inner", "sub/inner.gr", "x.txt", "x.txt.gr", filepath.Join(root, "abs"), filepath.Join(root, "abs.gr"), "a.gr.gr", ".gr.gr", "..gr", "a.gr/", "a.gr\x00.txt", strings.Repeat("a", 300))
+		// long names: validation does not depend on the length of the valid prefix (existing long-named sub-directories included)
+		for _, n := range []int{15, 16, 17, 31, 32, 33, 63, 64, 65, 127, 128, 129, 130, 200, 250} {
+			pre := strings.Repeat("a", n)
+			for _, suf := range []string{"", "~", "..", ".", "/", "/x", "\x00", " ", "/../../outside", "/../outside", "/../../abs", "/../sub/inner", ".gr~", "\\", "\u00e9"} {
+				names = append(names, pre+suf, pre+suf+".gr")
+			}
+		}
 	}
 	fmt.Println("C17BEGIN")
 	for pass := 0; pass < 2; pass++ {
@@ -275,6 +282,9 @@ func c17Child(args []string) int {
 
 func c17Seed(root string) {
 	_ = os.MkdirAll(filepath.Join(root, "work", "sub"), 0o755)
+	for _, n := range []int{15, 16, 17, 31, 32, 33, 63, 64, 65, 127, 128, 129, 130, 200, 250} {
+		_ = os.MkdirAll(filepath.Join(root, "work", strings.Repeat("a", n)), 0o755)
+	}
 	_ = os.WriteFile(filepath.Join(root, "outside.gr"), []byte("marker_outside=1\n"), 0o644)
 	_ = os.WriteFile(filepath.Join(root, "abs.gr"), []byte("marker_abs=1\n"), 0o644)
 	_ = os.WriteFile(filepath.Join(root, "work", "sub", "inner.gr"), []byte("marker_inner=1\n"), 0o644)
